@@ -255,6 +255,25 @@ func (s *stdSvc) gRelayRequest(rt *rapid.T, o relayOpts) relayCase {
 	if rapid.IntRange(0, 4).Draw(rt, "totag") == 0 {
 		toTag = gTok(rt, "totagv")
 	}
+	// C01: now and then a request of a dialog, of a method the proxy has feature
+	// code for, carrying the headers that go with it - written the way RFC 3261
+	// allows (blanks around ';' and '=', empty parameter values, odd case). They
+	// are none of the proxy's business: name and value pass as they are.
+	inDialog := o.Sloppy && rapid.IntRange(0, 5).Draw(rt, "an in-dialog request with the headers of its method") == 0
+	if inDialog {
+		p.Method = rapid.SampledFrom([]string{"NOTIFY", "NOTIFY", "SUBSCRIBE", "BYE", "INVITE", "UPDATE", "REFER", "ACK", "CANCEL", "PRACK", "INFO"}).Draw(rt, "dialog method")
+		p.CSeqMethod = p.Method
+		if toTag == "" {
+			toTag = gTok(rt, "totagv")
+		}
+		hasTag := false
+		for _, q := range p.From.Params {
+			hasTag = hasTag || q.K == "tag"
+		}
+		if !hasTag {
+			p.From.Params = append(p.From.Params, AParam{K: "tag", V: gTok(rt, "fromtagv"), HasV: true})
+		}
+	}
 	toHostStatic := []string{"static-udp.test", "static-tcp.test", "static-noport.test", "x.wudp.test", "y.z.wtcp.test", "also-udp.test", "q.wmid.test", "r.wlast.test", "tail-lit.test", "k.wtcp2.test", "plain-w.test", "static-high.test", "Static-Caps.Corp.test"}
 	switch rc.Path {
 	case "static":
@@ -308,6 +327,19 @@ func (s *stdSvc) gRelayRequest(rt *rapid.T, o relayOpts) relayCase {
 		}
 	}
 	p.Ext = gExtHeaders(rt, "ext", o.MaxExt, o.MaxLong)
+	if inDialog {
+		feature := [][2]string{
+			{"Subscription-State", "terminated; reason=timeout"}, {"Subscription-State", "active ;expires=3599"}, {"subscription-state", "pending; x="}, {"Subscription-State", "terminated;reason= noresource ; retry-after=5"}, {"Subscription-State", "Terminated"}, {"SUBSCRIPTION-STATE", "terminated"},
+			{"Expires", " 3600"}, {"Expires", "0"}, {"expires", "4294967295"}, {"Event", "presence; id=7"}, {"o", "dialog ;sla"}, {"Session-Expires", "1800; refresher=uas"}, {"Min-SE", "90 "},
+			{"Contact", "<sip:u@192.0.2.7:5090; transport=tcp> ; expires=60"}, {"m", "*"}, {"Refer-To", "<sip:x@y.example?Replaces=a%40b%3Bto-tag%3D1>"}, {"RAck", "1  2 INVITE"}, {"RSeq", "0017"}, {"Max-Forwards", "070"}, {"Reason", "SIP ;cause=200 ;text=\"x; y\""},
+		}
+		for i, k := 0, rapid.IntRange(1, 3).Draw(rt, "feature headers"); i < k; i++ {
+			f := feature[rapid.IntRange(0, len(feature)-1).Draw(rt, "feature header")]
+			h := AHdr{Kind: hExt, Name: f[0], SP: gSP(rt, "feature.sp"), Value: strings.Trim(f[1], " \t")}
+			at := rapid.IntRange(0, len(p.Ext)).Draw(rt, "feature header position")
+			p.Ext = append(p.Ext[:at:at], append([]AHdr{h}, p.Ext[at:]...)...)
+		}
+	}
 	p.Body = gBody(rt, "body", o.MaxBody)
 	if o.Sloppy && rapid.IntRange(0, 7).Draw(rt, "blanks inside From / To parameters") == 0 {
 		// RFC 3261 allows white space around ';' and '=' (SEMI, EQUAL); it is part
